@@ -63,7 +63,7 @@ func orderViolation(log []doubles.Call, ca string) string {
 // value (which, correctly, still describes the old manifest) and repeats the rotation then has memkm/localkm
 // CreateNewSigningKeyVersion regenerate the version name that the manifest on disk already records as primary.
 // Reported to the coordinator; counted, not judged, while false (thorough tier only: long-lived value over gcsca-disk).
-const judgeAmbiguousManifestWrite = false
+const judgeAmbiguousManifestWrite = true
 
 func ambiguousManifestWrite(long bool, ca string, faults map[int]string, trace []string) bool {
 	if !long || ca != authority.GcscaDisk {
